@@ -59,6 +59,7 @@ def one(binary, case):
         dr.ok("init", dir=d)
         r = dr.ok("mvis_stress", series=case["series"], metrics=case["metrics"], ms=case["ms"], seed=case["seed"],
                   queriers=case["queriers"], putters=case["putters"], seg_every=case["seg_every"], prerotate=case["prerotate"],
+                  flush_us=case["flush_us"],
                   force_flush=True, timeout=240)
         if not r.get("deadlock") and not r.get("refresh_timeout"):
             # the shutdown rotation was done (once per process life): a new process must find exactly the same contents
@@ -105,7 +106,8 @@ def run(chk, binary):
     for i in range(n):
         cases.append({"idx": i, "procs": [1, 2, 4, 16][i % 4], "ms": 2500 if quick else 6000, "seed": chk.seed * 1000 + 500 + i,
                       "series": 8, "metrics": 4, "queriers": 2 + i % 3, "putters": 2 + (i // 2) % 3,
-                      "seg_every": [6, 3, 12][i % 3], "prerotate": i % 3 == 1})
+                      "seg_every": [6, 3, 12][i % 3], "prerotate": i % 3 == 1,
+                      "flush_us": [1000, 300, 600][(i + i // 3) % 3]})
     results = vlib.pmap(lambda c: one(binary, c), cases, workers=3 if quick else 4)
     tot = {"queries": 0, "query_errors": 0, "queries_with_exemption": 0, "puts": 0, "flushes": 0, "block_rotations": 0, "seg_rotations": 0}
     for c, r in zip(cases, results):
